@@ -166,6 +166,7 @@ def run_prop(prop, tier, seed, replay=None, make_cases=None):
     violations += gviol
     ncmp2, mviol = pe.check_mainimpls([c.invocation() for c in cases] + icase_invs)
     stats['main_impls_compared'] = ncmp2
+    stats['main_items_compared'] = pe.ITEMS_COMPARED
     violations += mviol
     if stats['spec_checked'] and stats['oracle_inconclusive'] > max(2, 0.02 * stats['spec_checked']):
         raise cm.HarnessError('the Coq model of trait resolution (RustSem.applicable) disagrees with rustc on %d of %d cases'
